@@ -164,3 +164,39 @@ func VerifRun_C10pool() {
 	}
 	verifReach("ran")
 }
+
+// c: a find-references on a global while two files have unsaved, still-parsing edits: the reference worker
+// pool consults the cache of last-good analyses concurrently from several workers.
+func VerifRun_C10refs() {
+	root := verifVFSRoot()
+	l, file := c10server(root)
+	other := root + "/b.lua"
+	ctx := context.Background()
+	for i, f := range []string{file, other} {
+		uri := lsp.DocumentURI("file://" + f)
+		txt := "local x = 5\ngg = x\nprint(gg)\n"
+		if i == 1 {
+			txt = "hh = gg\nkk = gg\n"
+		}
+		_ = l.TextDocumentDidOpen(ctx, lsp.DidOpenTextDocumentParams{TextDocument: lsp.TextDocumentItem{URI: uri, Text: txt}})
+		_ = l.TextDocumentDidChange(ctx, lsp.DidChangeTextDocumentParams{
+			TextDocument:   lsp.VersionedTextDocumentIdentifier{TextDocumentIdentifier: lsp.TextDocumentIdentifier{URI: uri}},
+			ContentChanges: []lsp.TextDocumentContentChangeEvent{{Text: txt + "jj = 1\n"}}})
+	}
+	pos := lsp.TextDocumentPositionParams{TextDocument: lsp.TextDocumentIdentifier{URI: lsp.DocumentURI("file://" + file)}, Position: lsp.Position{Line: 1, Character: 0}}
+	reps := 1
+	if verifNative() {
+		reps = 30
+	}
+	for k := 0; k < reps; k++ {
+		verifTask("A:references", false)
+		refs, _ := l.TextDocumentReferences(ctx, lsp.ReferenceParams{TextDocumentPositionParams: pos})
+		if k == 0 {
+			verifObserve("refs", string([]byte{'0' + byte(len(refs))}))
+		}
+		verifTask("B:rename", false)
+		_, _ = l.TextDocumentRename(ctx, lsp.RenameParams{TextDocument: pos.TextDocument, Position: pos.Position, NewName: "zz"})
+		verifTask("", false)
+	}
+	verifReach("ran")
+}
